@@ -334,12 +334,12 @@ func runC19(c *Ctx) int {
 	nSilence := c.Pick(120, 6000)
 	perClass := c.Pick(10, 0)
 	// bases for the sweep: small databases with splits, overflow, nested and inline buckets, persisted freelist
-	sweep := apiPrograms(c.Seed+1900, nSweep, []string{"structural", "buckets", "mixed"}, func(i int, cfg *gen.Config) {
+	sweep := apiPrograms(c.Seed+1900, nSweep, []string{"structural", "buckets", "mixed", "bigkeys"}, func(i int, cfg *gen.Config) {
 		cfg.PageSize = []int{1024, 4096, 1024, 2048}[i%4]
 		cfg.Opts.NoFreelistSync = i%6 == 5
 		cfg.Reopen, cfg.ROProbe, cfg.Rollback = 0.1, 0, 0.1
 		cfg.Txs = 7
-		cfg.NoBigKeys = true
+		cfg.NoBigKeys = cfg.Profile != "bigkeys"
 		cfg.KeySpace = 260
 	})
 	// hand-shaped bases guarantee every class an eligible target whatever the seed: several paged buckets (also nested),
